@@ -158,7 +158,7 @@ def model_source(cases):
             kk = "None" if k is None else f"(Some {k}%nat)"
             if case["inputs"] is None:
                 for sig in ("(fun l => l)", "(@rev nat)"):
-                    runs.append(f"show_run (backward_default QN {name} {A} {sig} {outs} {kk} false {st}) {tids}")
+                    runs.append(f"show_run (backward_default QN {name} E{name} {A} {sig} {outs} {kk} false {st}) {tids}")
             else:
                 for o in orders:
                     runs.append(f"show_run (backward_model QN {name} {A} {outs} {ajlib.c_natlist(o)} {kk} false {st}) {tids}")
